@@ -16,6 +16,7 @@ import (
 	"strconv"
 	"strings"
 	"sync"
+	"syscall"
 	"time"
 
 	"golang.org/x/tools/go/packages"
@@ -572,13 +573,37 @@ func runParent(prop, tier, only string, jobs int, list bool, seed int) int {
 			cmd := exec.Command(self, "-prop", prop, "-tier", tier, "-child", m.Name, "-result", rp)
 			cmd.Stderr = os.Stderr
 			cmd.Stdout = os.Stderr
-			cmd.Env = os.Environ()
-			err := cmd.Run()
+			cmd.Env = append(os.Environ(), "VERIF_TIER="+tier)
+			cmd.SysProcAttr = &syscall.SysProcAttr{Setpgid: true}
+			limit := 900 * time.Second
+			if tier == "thorough" {
+				limit = 5400 * time.Second
+			}
+			if v, e2 := strconv.Atoi(os.Getenv("VERIF_HARNESS_TIMEOUT")); e2 == nil && v > 0 {
+				limit = time.Duration(v) * time.Second
+			}
+			err := cmd.Start()
+			timedOut := false
+			if err == nil {
+				done := make(chan error, 1)
+				go func() { done <- cmd.Wait() }()
+				select {
+				case err = <-done:
+				case <-time.After(limit):
+					timedOut = true
+					syscall.Kill(-cmd.Process.Pid, syscall.SIGKILL)
+					err = <-done
+				}
+			}
 			r := &HarnessResult{Harness: m.Name, Pkg: m.Pkg, Status: "error"}
 			if b, e2 := os.ReadFile(rp); e2 == nil {
 				json.Unmarshal(b, r)
 			} else if err != nil {
 				r.Msg = "child failed: " + err.Error()
+			}
+			if timedOut {
+				r.Status = "inconclusive"
+				r.Msg = fmt.Sprintf("harness wall-clock limit of %v exceeded", limit)
 			}
 			results[i] = r
 		}(i, m)
